@@ -80,6 +80,8 @@ class StereoCondensedReactionGraph(StereoMolGraph, CondensedReactionGraph):
     def __eq__(self, other: object) -> bool:
         if type(other) is not type(self):
             return NotImplemented
+        if self.n_atoms == 0 or other.n_atoms == 0:
+            return self.n_atoms == other.n_atoms
 
         o_labels = label_hash(other, atom_labels=("atom_type", "reaction"))
         s_labels = label_hash(self, atom_labels=("atom_type", "reaction"))
